@@ -84,7 +84,8 @@ LEVEL_TEXT = (
     "different maximal clique exactly when no outside vertex has two neighbours in it; C09_check_isolated_fast_sound / "
     "_fast_eq - the polynomial isolated_ok_fast_b (one candidate per edge: the edge plus the common neighbours of its "
     "ends, no maximal-clique enumeration) is equivalent to IsolatedIntact, hence equal to isolated_ok_b, on every "
-    "loop-free edge list; (general, wire level) C09_check_full_fast_agrees - the entry c09_check_full_fast answers "
+    "loop-free edge list; (bounded, vm_compute, independent of that proof) C09_check_isolated_fast_agrees_upto_5 - the two "
+    "tests agree on all 1024 edge subsets of K5 x m0 in 1..6 x three probe covers; (general, wire level) C09_check_full_fast_agrees - the entry c09_check_full_fast answers "
     "exactly what c09_check answers on every tree, and C09_check_full_fast_entry_cover / _empty / _isolated tie its "
     "three answers to ExactCover / empty working graph / IsolatedIntact of the simple graph handed over.  The model (float-faithful scores, content-keyed tie-breaks) is tied to "
     "gcmpy/covers/eecc.py + network.py by the correspondence described in `rule`; the verified checker c09_check "
